@@ -591,11 +591,11 @@ def sext (b : Nat) : Nat := if b ≥ 128 then b + (2 ^ 64 - 256) else b
 def hashL (len : Nat) (a : List Nat) : Nat :=
   let m := 2 ^ 64
   let h := len
-  let h := (h * 16807) % m
+  let h := (h * Generated.hashMul) % m
   let h := h ^^^ sext (a.getD 0 0)
-  let h := (h * 16807) % m
+  let h := (h * Generated.hashMul) % m
   let h := h ^^^ sext (a.getD (len / 2) 0)
-  let h := (h * 16807) % m
+  let h := (h * Generated.hashMul) % m
   h ^^^ sext (a.getD (len - (if len ≠ 0 then 1 else 0)) 0)
 
 def hash (s : St) (v : Nat) : Option (St × Nat) := do
@@ -746,25 +746,35 @@ def render : List Fmt → List Nat
   | .s bs :: r => bs ++ render r
   | .c x :: r => x :: render r
 
-/-- `printf(format, …)`: `detach(0, 200)`, `vsnprintf` into the capacity, second attempt when it did not fit -/
-def printf (s : St) (v : Nat) (f : List Fmt) : Option (St × Nat) := do
-  let out := render f
-  let s ← detach s v 0 Generated.printfBuf
+/-- what `vsnprintf(buf, size, …)` stores for the output `out`: at most `size - 1` chars and a NUL
+    (nothing at all when `size = 0`) -/
+def vsnStore (m : List Byte) (size : Nat) (out : List Nat) : Option (List Byte) :=
+  if size = 0 then some m else wr m 0 ((out.take (size - 1)).map some ++ [some 0])
+
+/-- the two attempts of `printf` / `fromPrintf` on the exclusively owned, empty block of `v`:
+    `vsnprintf(str, capacity, …)` (the size passed is `capacity`, not `capacity + 1`); when the output did not
+    fit the truncated text and its NUL *stay in the block while `data->len` is still 0*, then `detach(0, result)`
+    (in place when `result == capacity`, else a new block) and `vsnprintf(str, result + 1, …)` -/
+def printfTail (s : St) (v : Nat) (out : List Nat) : Option (St × Nat) := do
   let d ← desc s v
   let m ← memOf s d.base
+  let m ← vsnStore m d.cap out
   if out.length < d.cap then do
-    let m ← wr m 0 (out.map some ++ [some 0])
     let s ← writeOwn s v m out.length
     pure (s, out.length)
   else do
-    -- (the capacity-1 chars and the NUL the first vsnprintf stored are all overwritten by the
-    --  second one, which stores more; that intermediate store is not modelled)
+    let s ← writeOwn s v m d.len
     let s ← detach s v 0 out.length
     let d ← desc s v
     let m ← memOf s d.base
-    let m ← wr m 0 (out.map some ++ [some 0])
+    let m ← vsnStore m (out.length + 1) out
     let s ← writeOwn s v m out.length
     pure (s, out.length)
+
+/-- `printf(format, …)`: `detach(0, 200)`, then the two attempts -/
+def printf (s : St) (v : Nat) (f : List Fmt) : Option (St × Nat) := do
+  let s ← detach s v 0 Generated.printfBuf
+  printfTail s v (render f)
 
 /-! ### observations -/
 
